@@ -161,6 +161,13 @@ def sibling_sequences(tier):
                         a["d"] = b["d"] = 1
                     seqs.append([a, b])
                     seqs.append([b, a])
+    # the single-storage schedules: the other move_data setting, another step count, in one process
+    for n in range(1, N + 1):
+        cp = {"cls": "SingleDisk", "move": False, "n": n, "passes": 2}
+        mv = {"cls": "SingleDisk", "move": True, "n": n, "passes": 1}
+        seqs += [[cp, mv], [mv, cp], [cp, dict(mv, n=n + 2)], [mv, dict(cp, n=n + 2)], [dict(mv, n=n + 2), cp],
+                 [{"cls": "SingleMemory", "n": n, "passes": 2}, {"cls": "SingleMemory", "n": n + 1, "passes": 2}],
+                 [{"cls": "SingleMemory", "n": n + 1, "passes": 1}, cp, {"cls": "None", "n": n, "passes": 0}, mv]]
     for n in range(3, N + 1):
         for tot in (2, 3, 4):
             for tr in ("maximum", "revolve"):
